@@ -62,6 +62,8 @@ def gen_kids(r, tbl, nkids, outside=False, immutable_bias=False):
             c = tbl.add(D.gen_imm(r, r.choice(["CHK", "LIT", "DIR2-CHK", "DIR2-LIT"]))) if r.random() < 0.6 else tbl.add(D.gen_other(r))
             pre = b"" if c.cls == "imm" else r.choice([b"", D.RO, D.IMM])
             w, ro, label = None, pre + c.s, ("imm-" + c.label)
+        elif r.random() < 0.1:
+            w, ro, label = D.gen_edge_whitespace_caps(r, tbl)
         else:
             w, ro, label = D.gen_child_caps(r, tbl, allow_odd=True, known_writecap_in_ro_slot=True)
         md = D.gen_metadata(r) if r.random() < 0.8 else D.gen_json(r) if False else {}
@@ -197,6 +199,17 @@ def mutable_case(ctx, i, terms, info, outside=False):
                                 case=case, expected=D.canon_json(md0), observed=D.canon_json(md1))
             if not in_scope:
                 ctx.count("outside-child-changed" if o0 != o1 else "outside-child-unchanged")
+            if label.startswith("edge-ws"):
+                spec_ = [k for k in kids if D.nfc(k[0]) == name and k[3] == label][-1]
+                want_caps = D.expected_edge_caps(spec_[1], spec_[2])
+                ro_view = D.node_obs(children_ro[name][0]) if name in children_ro else None
+                for what, got_caps in (("as the node maker built it", (o0[1], o0[2])), ("after the round trip through the write cap", (o1[1], o1[2])),
+                                       ("after the round trip through the read cap", (want_caps[0] and None, ro_view[2]) if ro_view else (None, None))):
+                    exp = want_caps if "read cap" not in what else (None, want_caps[1])
+                    if got_caps != exp:
+                        ctx.oracle_fail("unknown-cap-bytes-altered", "child %r given as (%r, %r): %s its caps are %r, not byte for byte %r"
+                                        % (name, spec_[1], spec_[2], what, got_caps, exp), case=case, expected=exp, observed=got_caps)
+                        break
         # independent reading of the bytes
         try:
             entries = D.read_packed(packed, wk)
@@ -315,6 +328,12 @@ def immutable_case(ctx, i, terms, info):
             want_ro = o0[2]
             if o0[0] == "unknown" and want_ro is not None:
                 want_ro = D.IMM + D.strip_prefix_expected(D.strip_prefix_expected(want_ro, True), True) if not want_ro.startswith(D.IMM) else want_ro
+            if final[name][2].startswith("edge-ws"):
+                spec_ = [k for k in kids if D.nfc(k[0]) == name and k[3] == final[name][2]][-1]
+                exp = D.expected_edge_caps(spec_[1], spec_[2], immutable_dir=True)
+                if (o1[1], o1[2]) != exp:
+                    ctx.oracle_fail("unknown-cap-bytes-altered", "child %r given as (%r, %r): after an immutable directory its caps are %r, not byte for byte %r"
+                                    % (name, spec_[1], spec_[2], (o1[1], o1[2]), exp), case=case, expected=exp, observed=(o1[1], o1[2]))
             if (o0[0], o0[1], want_ro, o0[3]) != (o1[0], o1[1], o1[2], o1[3]) or o1[4] is not None or children[name][1] != final[name][1]:
                 ctx.oracle_fail("immutable-round-trip-child-differs", "child %r differs after the immutable round trip" % (name,),
                                 case=case, expected=[o0, final[name][1]], observed=[o1, children[name][1]])
